@@ -227,7 +227,7 @@ def e2e_case(draw):
     trees, ops = draw(gen_sexpr.damaged(base, 3))
     text = model.render_list(trees) + '\n'
     if kind == 'deep-run':
-        depth = draw(st.sampled_from([350, 350, 1100]))
+        depth = draw(st.sampled_from([300, 350, 500]))
         op = draw(st.sampled_from(['not', 'bvnot', '-']))
         wrap = draw(st.sampled_from(['(assert %s)', '(assert (let ((l %s)) l))', '(define-fun g () Bool %s)']))
         text = '(declare-const x Bool)\n' + (wrap % (('(' + op + ' ') * depth + 'x' + ')' * depth)) + '\n(check-sat)\n'
